@@ -70,6 +70,7 @@ func (w *World) runMonitors() {
 		w.monKept(h)
 	}
 	w.monSurvive(h)
+	w.monUnexplainedClose(h)
 }
 
 // C15: packets retransmitted after a resume go out in the order of their original transmission
@@ -1228,6 +1229,64 @@ func (w *World) monSurvive(h []ev) {
 		}
 		if e.kind == "closed" && w.mustSurvive[e.conn] {
 			w.hit("well-behaved-client-closed", fmt.Sprintf("connection %d only sent valid requests and acknowledged everything, yet the broker closed it", e.conn))
+		}
+	}
+}
+
+// C16 / C08 / C14: the broker closes a connection only for a reason — the peer went away, a write to it failed, it broke
+// the protocol, it was displaced, it said goodbye, the backend shut down.  Evaluated for the well-behaved profiles only
+// (no hostile packets, no small queues, quiescent stepping): a close that none of these explains (e.g. a token timeout
+// hitting a peer that acknowledges promptly) is reported.
+func (w *World) monUnexplainedClose(h []ev) {
+	switch w.prop {
+	case "C06", "C08", "C11", "C15", "C16":
+	default:
+		return
+	}
+	if w.concurrent || w.queue < 100 {
+		return
+	}
+	idOf := map[int]string{}
+	excused := map[int]bool{}
+	byID := map[string][]int{}
+	shutdown := false
+	for _, e := range h {
+		switch e.kind {
+		case "finish", "bclose":
+			shutdown = true
+		case "stim-drop", "sendfail", "stall":
+			excused[e.conn] = true
+		case "stim-send":
+			switch p := e.pkt.(type) {
+			case *packet.Connect:
+				if _, known := idOf[e.conn]; known {
+					excused[e.conn] = true // second CONNECT
+				} else {
+					idOf[e.conn] = p.ClientID
+					if p.ClientID != "" {
+						// a takeover: both sides of it may be closed (the newcomer when the old one cannot finish dying)
+						for _, o := range byID[p.ClientID] {
+							excused[o] = true
+							excused[e.conn] = excused[e.conn] || false
+						}
+						byID[p.ClientID] = append(byID[p.ClientID], e.conn)
+					}
+				}
+			case *packet.Disconnect, *packet.Connack, *packet.Suback, *packet.Unsuback, *packet.Pingresp:
+				excused[e.conn] = true
+			default:
+				if _, known := idOf[e.conn]; !known {
+					excused[e.conn] = true // first packet is not CONNECT
+				}
+			}
+		case "sent":
+			if p, ok := e.pkt.(*packet.Connack); ok && p.ReturnCode != packet.ConnectionAccepted {
+				excused[e.conn] = true
+			}
+		case "closed":
+			if !shutdown && !excused[e.conn] {
+				w.hit("closed-without-cause", fmt.Sprintf("the broker closed connection %d although its peer was connected, followed the protocol, acknowledged what it received and was not displaced", e.conn))
+			}
 		}
 	}
 }
